@@ -29,9 +29,14 @@ CHECKS.update({
          'decides image == described bytes for all values', '6 C11',
          'directive x width x endianness x list length enumerated; strings from a fixed catalogue (characters not symbolic)'),
 })
+CHECKS.update({
+ 'C07': ('UNIT: real parse_expression + ExpressionNode evaluation on proxies for enumerated operator trees rendered with minimal '
+         'parentheses; every label leaf symbolic; z3 decides value == exact rational reference truncated toward zero', '6 C07',
+         'trees with <= 2 (quick) / 3 (thorough) binary operators enumerated; leaves |v| <= 2^16 (2^7 with division); literal spellings and malformed texts from catalogues'),
+})
 NA = {
 }
-PENDING = ['C06','C07','C08','C10','C13','C14','C16','C17','C19','C20']
+PENDING = ['C06','C08','C10','C13','C14','C16','C17','C19','C20']
 NA_FIXED = {
  'C09': 'quantifier is over names/line text handled by re.findall + str.replace on concrete strings; Python re cannot run on symbolic strings and an SMT-string re-model would not be the real code (DESIGN 7)',
  'C15': 'variation enters through interpreter hash randomisation and the OS environment - process parameters, not inputs of any function the symbolic executor can run (DESIGN 7)',
